@@ -249,4 +249,6 @@ class Concretiser:
     def marker_kind(self, denom_term):
         if not self.bool(f_marker_found(denom_term)):
             return 'none'
-        return 'restricted' if self.int(f_marker_type(denom_term)) == 2 else 'coin'
+        from .engine import f_marker_status
+        kind = 'restricted' if self.int(f_marker_type(denom_term)) == 2 else 'coin'
+        return kind if self.int(f_marker_status(denom_term)) == 3 else kind + '_inactive'
